@@ -156,6 +156,7 @@ structure ExtTcb (t : Tcb) : Prop where
   heapw : ∀ σ ∈ t.incoming.segments, σ.hdr.wnd = 65535#16
   swnd : t.state ≠ .SynSent → t.snd.wnd = 65535#16
   one : ∀ h ∈ t.outgoing.oneshot, h.seq = t.snd.nxt ∧ h.ctl.ack = true ∧ h.ctl.syn = false ∧ h.ctl.fin = false
+  rtxa : ∀ tr ∈ t.outgoing.retransmit, tr.segment.hdr.ctl.ack = true ∨ tr.segment.hdr.ctl.syn = true
 
 structure Ext (s : Sys) : Prop where
   wf : SysWf s
@@ -166,7 +167,7 @@ structure Ext (s : Sys) : Prop where
 theorem ExtTcb.local {t t' : Tcb} (h : ExtTcb t) (l : LStep t t') (x : XStep t t') (hw : t'.rcv.wnd = 65535#16) :
     ExtTcb t' := by
   refine ⟨h.snd.step x.pres, x.keep h.keep, fun y hy => ?_, fun tr hy => ?_, by rw [l.heap]; exact h.heapw,
-    fun hs => by rw [x.swnd]; exact h.swnd (fun e => hs (l.synsent.2 e)), fun y hy => ?_⟩
+    fun hs => by rw [x.swnd]; exact h.swnd (fun e => hs (l.synsent.2 e)), fun y hy => ?_, fun tr hy => ?_⟩
   · rcases l.q.one y hy with e | e
     · exact h.onew y e
     · rw [e.2.1, hw]
@@ -176,6 +177,9 @@ theorem ExtTcb.local {t t' : Tcb} (h : ExtTcb t) (l : LStep t t') (x : XStep t t
   · rcases x.one with e | ⟨e1, e2⟩
     · rw [e] at hy; cases hy
     · rw [e1] at hy; rw [e2]; exact h.one y hy
+  · rcases l.q.rtx tr hy with ⟨t0, e, es⟩ | e
+    · rw [← es]; exact h.rtxa t0 e
+    · exact e.2.2.2
 
 /-- a segment (advertising 65535) has been processed -/
 theorem ExtTcb.arrive {u u' : Tcb} {σ : Segment} (h : ExtTcb u) (e : u.segmentArrives σ = .ok (u', .Ok))
@@ -190,13 +194,17 @@ theorem ExtTcb.arrive {u u' : Tcb} {σ : Segment} (h : ExtTcb u) (e : u.segmentA
     · exact hσ
     · exact h.heapw τ hτ
   refine ⟨h.snd.step (segmentArrives_pres u σ hwf hp u' .Ok e), (segmentArrives_live u σ u' .Ok e hE h.keep).1,
-    fun y hy => ?_, fun tr hy => ?_, fun τ hτ => ?_, fun hs => ?_, fun y hy => ?_⟩
+    fun y hy => ?_, fun tr hy => ?_, fun τ hτ => ?_, fun hs => ?_, fun y hy => ?_, fun tr hy => ?_⟩
+  rotate_right
+  · rcases ss.rtx tr hy with ⟨t0, e1, es⟩ | e1
+    · rw [← es]; exact h.rtxa t0 e1
+    · exact e1.2
   · rcases ss.one y hy with e1 | e1
     · exact h.onew y e1
     · rw [e1.1, hw]
   · rcases ss.rtx tr hy with ⟨t0, e1, es⟩ | e1
     · rw [← es]; exact h.rtxw t0 e1
-    · rw [e1, hw]
+    · rw [e1.1, hw]
   · rcases List.mem_cons.1 (hsub τ hτ) with rfl | e1
     · exact hσ
     · exact h.heapw τ e1
@@ -228,7 +236,7 @@ theorem extTcb_listen (σ : Segment) (iss : Seq) (mtu : U16) (tcb : Tcb)
         generalize hq : Tcb.enqueueBuilt _ _ = q at e
         have f2 : q.outgoing.oneshot = [] ∧ q.snd.una = iss ∧ q.snd.wnd = σ.hdr.wnd ∧
             ∀ tr ∈ q.outgoing.retransmit, tr.segment.hdr.wnd = 65535#16 ∧ 0 < tr.segment.segLen ∧
-              tr.segment.hdr.seq + BitVec.ofNat 32 tr.segment.segLen = iss + 1 := by
+              tr.segment.hdr.seq + BitVec.ofNat 32 tr.segment.segLen = iss + 1 ∧ tr.segment.hdr.ctl.ack = true := by
           rw [← hq]
           refine ⟨?_, by simp only [(enqueueBuilt_frame _ _).2.2.1], by simp only [(enqueueBuilt_frame _ _).2.2.1], ?_⟩
           · unfold enqueueBuilt
@@ -239,15 +247,15 @@ theorem extTcb_listen (σ : Segment) (iss : Seq) (mtu : U16) (tcb : Tcb)
             simp only [List.nil_append, List.mem_singleton] at htr
             subst htr
             exact ⟨rfl, by simp [Transmit.new, Segment.segLen, Hdr.built, Hdr.withSyn, Hdr.withAck, Hdr.withWnd,
-              headerBuilder, Hdr.builder], rfl⟩
+              headerBuilder, Hdr.builder], rfl, rfl⟩
         have f3 : q.incoming.segments = [] := by
           rw [← hq, (enqueueBuilt_frame _ _).2.2.2.1]
         simp only [Except.ok.injEq, Option.some.injEq, ListenResult.Tcb.injEq] at e
         subst e
         refine ⟨hsnd, fun tr htr => ?_, fun y hy => (by rw [f2.1] at hy; cases hy), fun tr htr => (f2.2.2.2 tr htr).1,
           fun τ hτ => ?_, fun _ => (by show q.snd.wnd = _; rw [f2.2.2.1]; exact hσ),
-          fun y hy => (by rw [f2.1] at hy; cases hy)⟩
-        · obtain ⟨_, a, b⟩ := f2.2.2.2 tr htr
+          fun y hy => (by rw [f2.1] at hy; cases hy), fun tr htr => Or.inl (f2.2.2.2 tr htr).2.2.2⟩
+        · obtain ⟨_, a, b, _⟩ := f2.2.2.2 tr htr
           refine ⟨a, ?_⟩
           unfold keepFor
           show ModCmp.modLt q.snd.una _ = true
@@ -275,7 +283,13 @@ theorem extTcb_open (lp rp : U16) (iss : Seq) (mtu : U16) (t : Tcb) (e : Tcb.ope
   rw [enqueue_eq] at e
   cases e
   refine ⟨hsnd, fun tr htr => ?_, fun y hy => ?_, fun tr htr => ?_, fun τ hτ => ?_, fun hs => absurd hst hs,
-    fun y hy => ?_⟩
+    fun y hy => ?_, fun tr htr => ?_⟩
+  rotate_right
+  · unfold enqueueBuilt at htr
+    rw [if_pos (by rfl)] at htr
+    simp only [List.nil_append, List.mem_singleton] at htr
+    subst htr
+    exact Or.inr rfl
   · unfold enqueueBuilt at htr
     rw [if_pos (by rfl)] at htr
     simp only [List.nil_append, List.mem_singleton] at htr
